@@ -125,7 +125,12 @@ def main():
         P.cachable_tensor_method.cache_clear()
         return outs
 
-    def controlled(workload, choices):
+    def controlled(workload, choices, warm=False):
+        P.cachable_tensor_method.cache_clear()
+        if warm:
+            # every kernel is compiled and cached beforehand: the concurrent calls share the cached objects
+            for call in workload:
+                safe_call(call)
         s = Sched(choices)
         sched_ref["sched"] = s
         sched_ref["tids"] = {}
@@ -155,7 +160,6 @@ def main():
                 sys.settrace(None)
                 s.done(tid)
 
-        P.cachable_tensor_method.cache_clear()
         ths = [threading.Thread(target=body, args=(t,), daemon=True) for t in range(len(workload))]
         for t in ths:
             t.start()
@@ -202,7 +206,7 @@ def main():
         try:
             if req["op"] == "controlled":
                 seq = sequential(req["workload"])
-                res, info = controlled(req["workload"], req["choices"])
+                res, info = controlled(req["workload"], req["choices"], req.get("warm", False))
                 rep = {"sequential": seq, "concurrent": res, "info": info}
             elif req["op"] == "stress":
                 seq = sequential(req["workload"])
